@@ -1591,12 +1591,10 @@ class ArmiObject(metaclass=CompositeModelType):
             nuc: val * factor for nuc, val in self.getNumberDensities().items()
         }
         self.setNumberDensities(densitiesScaled)
-        # Update detailedNDens
-        if self.p.detailedNDens is not None:
-            self.p.detailedNDens *= factor
-        # Update pinNDens
-        if self.p.pinNDens is not None:
-            self.p.pinNDens *= factor
+        # Update detailedNDens and pinNDens where this kind of object defines them
+        for name in ("detailedNDens", "pinNDens"):
+            if name in self.p.paramDefs.names and self.p[name] is not None:
+                self.p[name] *= factor
 
     def clearNumberDensities(self):
         """
